@@ -238,6 +238,7 @@ func streamSetup(w *world) {
 
 		res, observed, envelopes := n.openStream(addr, cm, md, peerID, ti)
 		if res == "inconclusive" {
+			r.Count("stream_setup/inconclusive", 1)
 			continue
 		}
 
@@ -293,11 +294,9 @@ func streamSetup(w *world) {
 		if i < 2 || strings.HasPrefix(sc.name, "append/spoofed-pem") {
 			r.Sample(map[string]any{"scenario": "stream set-up behind TLS terminator", "case": sc.name, "result": res, "identity": identity, "payload_query": o})
 		}
-		// an accepted single-valued stream of the listed participant is the positive control of this phase
-		if strings.HasPrefix(sc.name, "listed-participant-") {
-			if identity != "authenticated-as-V" || o != "payload" {
-				r.Fatalf("stream set-up: the listed participant with its own certificate (%s) ended as %s/%s/%s: the phase is broken", sc.name, res, identity, o)
-			}
+		// an accepted single-valued stream of the listed participant is the positive control of this phase (TestCheck requires it)
+		if strings.HasPrefix(sc.name, "listed-participant-") && identity == "authenticated-as-V" && o == "payload" {
+			r.Count("stream_setup_positive_control", 1)
 		}
 	}
 }
